@@ -577,7 +577,7 @@ def r0611(prog, chk):
     def guards(node):
         out = set()
         for c_ in may_conds(prog, f, node):
-            if c_.kind in ("if", "boolop") and any(a is outer for a in ix.ancestors(c_.test)):
+            if c_.kind in ("if", "boolop") and any(a is outer for a in ix.ancestors(c_.loc)):
                 # conditions on the glyph (not on the individual anchor of the inner loop)
                 out.add((A.keytext(f.node, c_.test), c_.polarity))
         return out
